@@ -165,6 +165,18 @@ Theorem C09_start_once : forall s m, NoDup (map fst (tbl s)) -> forall c, (count
 Proof. exact call_once. Qed.
 Print Assumptions C09_start_once.
 
+(* the operations of one tick do not depend on each other: the calls for f are the same in any two states that agree
+   on f's entry, suspension and latest status - whatever other DAGs are loaded, due, running or started in that tick *)
+Theorem C09_tick_independent : forall s s' m c,
+  NoDup (map fst (tbl s)) -> NoDup (map fst (tbl s')) ->
+  alive s = alive s' ->
+  lookup (call_file c) (tbl s) = lookup (call_file c) (tbl s') ->
+  mem (call_file c) (susp s) = mem (call_file c) (susp s') ->
+  status_of s (call_file c) = status_of s' (call_file c) ->
+  count c (tick_calls s m) = count c (tick_calls s' m).
+Proof. exact tick_independent. Qed.
+Print Assumptions C09_tick_independent.
+
 Theorem C09_unknown_file_silent : forall s m, NoDup (map fst (tbl s)) ->
   forall c, lookup (call_file c) (tbl s) = None -> count c (tick_calls s m) = 0%nat.
 Proof. exact unknown_file_silent. Qed.
